@@ -322,6 +322,9 @@ func (c14ng) Run(c Case) (res Result) {
 					lens = append(lens, 1+len(h.Data))
 				}
 				for _, l := range lens {
+					if l >= 65531 {
+						tags["option-length-16bit-boundary"] = true
+					}
 					if l%4 != 0 {
 						tags[fmt.Sprintf("option-pad-%d", 4-l%4)] = true
 					}
@@ -874,6 +877,23 @@ func (c14ng) Gen(rng *rand.Rand, tier string) []Case {
 			ex = append(ex, fmt.Sprintf("cut:%d", rng.Intn(40000)))
 		}
 		add(ops, ex...)
+	}
+	// (e) option values at the 16-bit length boundary (65531..65535 octets), never the last option of
+	// their block: the padded length must not be computed in 16 bits
+	for i, l := range []int{65531, 65532, 65533, 65534, 65535} {
+		if tier != "thorough" && i%2 == 1 {
+			continue
+		}
+		long := hx(ngRandText(rng, l))
+		ops := []string{"sec:,,,", "if:" + hx([]byte("eth0")) + ",,,,,1,9,0,0",
+			fmt.Sprintf("pkt:0,%x,4,4,01020304,c.%s/c.%s", int64(1600000000e9), long, hx([]byte("tail"))),
+			fmt.Sprintf("pkt:0,%x,1,60,aa,c.", int64(1600000001e9))}
+		add(ops, "ro:100", []string{"mode:copy", "mode:zc"}[i%2], "full", fmt.Sprintf("cut:%d", 200+l/2), fmt.Sprintf("cut:%d", l+150))
+		if i%2 == 0 {
+			ops2 := []string{"sec:,,,", "if:" + long + "," + hx([]byte("cmt")) + ",,,,1,9,0,0",
+				fmt.Sprintf("pkt:0,%x,2,2,0102,-", int64(1600000002e9))}
+			add(ops2, "ro:100", "mode:copy", "full")
+		}
 	}
 	// (d) golden files from the repository as seeds: whole, and cut
 	for _, g := range ngGoldenFiles() {
